@@ -17,6 +17,7 @@ KANI_BASE = ["-Z", "stubbing", "-Z", "unstable-options", "--no-assertion-reach-c
 MEM_BUDGET_GB = int(os.environ.get("VERIF_MEM_GB", "52"))
 ENV = dict(os.environ, CARGO_NET_OFFLINE="true", CARGO_TERM_COLOR="never")
 ENV.pop("RUSTFLAGS", None)
+HOOK_CFG = "mikedilger_pocket_verif"
 
 TRUSTED = [
     "Kani 0.68 MIR->GOTO translation, CBMC 6.11 symex and bit-blasting, CaDiCaL",
@@ -204,10 +205,12 @@ def _limits(mem_gb):
     return f
 
 
-def run_cmd(cmd, cwd, timeout, mem_gb, logpath, drop=("Unwinding loop", "Not unwinding")):
+def run_cmd(cmd, cwd, timeout, mem_gb, logpath, drop=("Unwinding loop", "Not unwinding", "Unwinding recursion"), env=None):
     t0 = time.time()
+    if env is None:
+        env = env_for("db") if ("pocket-db" in cmd) else ENV
     with open(logpath, "w") as lf:
-        p = subprocess.Popen(cmd, cwd=cwd, env=ENV, stdout=subprocess.PIPE, stderr=subprocess.STDOUT,
+        p = subprocess.Popen(cmd, cwd=cwd, env=env, stdout=subprocess.PIPE, stderr=subprocess.STDOUT,
                              preexec_fn=_limits(mem_gb), text=True, errors="replace")
         timed_out = [False]
 
@@ -234,9 +237,17 @@ def run_cmd(cmd, cwd, timeout, mem_gb, logpath, drop=("Unwinding loop", "Not unw
     return p.returncode, timed_out[0], time.time() - t0
 
 
+def env_for(crate):
+    e = dict(ENV)
+    if crate == "db":
+        # hook guard (MANIFEST.hooks): small EVENT_MAP_CHUNK so that the mapped file fits a byte-array model
+        e["RUSTFLAGS"] = "--cfg " + HOOK_CFG
+    return e
+
+
 def kani_cmd(h, tgt, extra=()):
     return (["cargo", "kani", "-p", h.pkg, "--harness", h.fq, "--exact", "--target-dir", tgt]
-            + KANI_BASE + list(extra) + h.args)
+            + KANI_BASE + list(extra) + h.args + getattr(h, "resolved_extra", []))
 
 
 CHECK_RE = re.compile(r"^Check (\d+): (\S+)\n\t - Status: (\w+)\n\t - Description: \"(.*)\"\n\t - Location: (.*)$", re.M)
@@ -394,12 +405,8 @@ def run_harness(h, ws, tgt, logdir):
                     "wall_s": 0, "log": logpath}
         if pairs:
             extra = ["--cbmc-args", "--unwindset", ",".join(pairs)]
-    h_args = h.args
-    h.args = h_args + extra if extra else h_args
-    try:
-        rc, to, wall = run_cmd(kani_cmd(h, tgt), ws, h.timeout, h.mem, logpath)
-    finally:
-        h.args = h_args
+    h.resolved_extra = extra  # also used when the harness is re-run for concrete playback
+    rc, to, wall = run_cmd(kani_cmd(h, tgt), ws, h.timeout, h.mem, logpath)
     with open(logpath, errors="replace") as f:
         text = f.read()
     res = classify(h, rc, to, text)
